@@ -608,6 +608,55 @@ func (g *gen) compositionSeed() []Event {
 	return out
 }
 
+// listenerSeed deploys a GlobalConfiguration with one listener of every kind and resources bound to each
+// (a VirtualServer on the HTTP and HTTPS listeners, TransportServers on the TCP and UDP listeners), so that
+// the single-attribute GlobalConfiguration edits that follow hit listeners that are in use.
+func (g *gen) listenerSeed() []Event {
+	r := g.r
+	var out []Event
+	put := func(s Spec) {
+		s.UID, s.TS, s.Gen = g.newUID(), vh.Pick(r, stamps), 1
+		g.live[s.Kind+"|"+s.NS+"/"+s.Name] = s
+		out = append(out, Event{Op: "upsert", Spec: s, Note: "seed"})
+	}
+	nginx := sp("nginx")
+	gc := Spec{Kind: "gc", Listeners: []k8s.VListener{
+		{Name: "l1", Port: 8080, Proto: "HTTP", IPv4: vh.Pick(r, []string{"", "127.0.0.1"}), IPv6: vh.Pick(r, []string{"", "::1"})},
+		{Name: "l2", Port: 8443, Proto: "HTTP", Ssl: true, IPv4: vh.Pick(r, []string{"", "127.0.0.1"}), IPv6: vh.Pick(r, []string{"", "::1"})},
+		{Name: "l3", Port: 9000, Proto: "TCP", IPv4: vh.Pick(r, []string{"", "10.0.0.1"}), IPv6: vh.Pick(r, []string{"", "fe80::1"})},
+		{Name: "dns-udp", Port: 5353, Proto: "UDP"},
+	}}
+	g.gcLive, g.gcSpec = true, gc
+	out = append(out, Event{Op: "upsert", Spec: gc, Note: "seed"})
+	put(Spec{Kind: "vs", NS: "a-b", Name: "b", ClassField: nginx, Host: hosts[4], Listener: &[2]string{"l1", "l2"}})
+	put(Spec{Kind: "ts", NS: "ns1", Name: "b", ClassField: nginx, LName: "l3", Proto: "TCP"})
+	put(Spec{Kind: "ts", NS: "a-b", Name: "b", ClassField: nginx, LName: "dns-udp", Proto: "UDP"})
+	if r.Bool() {
+		put(Spec{Kind: "ts", NS: "a-b", Name: "a", ClassField: nginx, LName: "l3", Proto: "TCP"})
+	}
+	for i := len(out) - 1; i > 0; i-- {
+		j := r.Intn(i + 1)
+		out[i], out[j] = out[j], out[i]
+	}
+	// a few edits right away, each changing exactly one of port / IPv4 / IPv6 of one listener that is in use
+	for i := 0; i < 1+r.Intn(3); i++ {
+		ls := append([]k8s.VListener{}, g.gcSpec.Listeners...)
+		k := r.Intn(len(ls))
+		switch r.Intn(3) {
+		case 0:
+			ls[k].Port = ls[k].Port + 1 + r.Intn(3)
+		case 1:
+			ls[k].IPv4 = vh.Pick(r, []string{"", "127.0.0.1", "10.0.0.1"})
+		default:
+			ls[k].IPv6 = vh.Pick(r, []string{"", "::1", "fe80::1"})
+		}
+		s := Spec{Kind: "gc", Listeners: ls}
+		g.gcSpec = s
+		out = append(out, Event{Op: "upsert", Spec: s, Note: "edit-one-attribute"})
+	}
+	return out
+}
+
 func keyOf(e Event) string {
 	if e.Spec.Kind == "gc" {
 		return "gc"
@@ -682,6 +731,9 @@ func genCase(r *vh.Rng, id int, tier string) Case {
 	var evs []Event
 	if r.Chance(2, 5) {
 		evs = append(evs, g.compositionSeed()...)
+	}
+	if r.Chance(2, 5) {
+		evs = append(evs, g.listenerSeed()...)
 	}
 	for i := 0; i < n; i++ {
 		evs = append(evs, g.next())
